@@ -102,6 +102,9 @@ META = dict(
 META["rule"] += (
     " " + "Added after the second round: family 'long lines' (plateaus of 129 .. 300 samples: lines longer than 127 / 255).")
 
+META["rule"] += (
+    " " + 'Added after the fifth round: half of the local-rate cases have a quarter of their samples missing; 30 % of the history cases are sequential-mode objects whose threshold attribute is assigned after the histograms were queried; switches as bool / np.bool_ / 0-1; plateaus of 520 (thorough 1030) samples.')
+
 SCALARS = [
     ("max_diaglength", "diag", None), ("determinism", "diag", "frac"),
     ("average_diaglength", "diag", "avg"), ("diag_entropy", "diag", "ent"),
